@@ -156,6 +156,25 @@ type (
 		M map[uint8][1]*CInnerCoded `serix:",lenPrefix=uint8"`
 		I [2]CShape                 `serix:",lenPrefix=uint16"`
 	}
+	CFlag   uint8
+	CSmall  int8
+	CFlags4 [4]CFlag
+	CFlagsS []CFlag
+	CNarrow struct {
+		A8   [4]CFlag           `serix:",lenPrefix=uint8"`
+		A16  [3]CFlag           `serix:",lenPrefix=uint16"`
+		A32  [2]CSmall          `serix:",lenPrefix=uint32"`
+		AB   [2]bool            `serix:",lenPrefix=uint8"`
+		S8   []CFlag            `serix:",lenPrefix=uint8,maxLen=5"`
+		S16  []CSmall           `serix:",lenPrefix=uint16"`
+		S32  []NBool            `serix:",lenPrefix=uint32"`
+		Raw  [4]byte            `serix:""`
+		RawS []uint8            `serix:",lenPrefix=uint8"`
+		Cod  CFlags4            `serix:""`
+		CodS CFlagsS            `serix:""`
+		Ptr  *[2]CFlag          `serix:",lenPrefix=uint8"`
+		M    map[CFlag][2]CFlag `serix:",lenPrefix=uint8"`
+	}
 	CEmpty      struct{}
 	CEmptyDups  []CEmpty
 	CTimeKeyMap map[time.Time]uint8
@@ -203,6 +222,13 @@ func baseAPI() *serix.API {
 	return api
 }
 
+// narrowPrep: sequence types of named one-byte elements registered with object codes and prefixes.
+func narrowPrep(api *serix.API) {
+	must(api.RegisterTypeSettings(CFlags4{}, lpTS(serix.LengthPrefixTypeAsUint16).WithObjectType(uint8(44))))
+	must(api.RegisterTypeSettings(CFlagsS{}, lpTS(serix.LengthPrefixTypeAsByte).WithObjectType(uint32(45))))
+	must(api.RegisterTypeSettings([2]CFlag{}, lpTS(serix.LengthPrefixTypeAsByte)))
+}
+
 type catEntry struct {
 	name string
 	top  any
@@ -227,6 +253,12 @@ var catalogue = []catEntry{
 	{name: "wides", top: CWides{}},
 	{name: "arrays", top: CArrays{}},
 	{name: "maps", top: CMaps{}},
+	{name: "narrow", top: CNarrow{}, prep: narrowPrep},
+	{name: "top-flags4", top: CFlags4{}, prep: narrowPrep},
+	{name: "top-flags-slice", top: CFlagsS{}, prep: narrowPrep},
+	{name: "top-flag-arr", top: [4]CFlag{}, ts: tsp(lpTS(serix.LengthPrefixTypeAsByte))},
+	{name: "top-flag-arr16", top: [3]CFlag{}, ts: tsp(lpTS(serix.LengthPrefixTypeAsUint16))},
+	{name: "top-flag-arr32", top: [2]CSmall{}, ts: tsp(lpTS(serix.LengthPrefixTypeAsUint32))},
 	{name: "ptr-arrays", top: CPtrArrays{}, prep: func(api *serix.API) {
 		must(api.RegisterTypeSettings([1]*CInnerCoded{}, lpTS(serix.LengthPrefixTypeAsByte)))
 	}},
